@@ -28,8 +28,8 @@ def p1_atoms(reduced=False):
     p.tag("even_name", "INT", (300,), instance_id=next(ids))
     p.tag("X", "SINT", (17,), instance_id=next(ids))
     p.tag("a_tag_name_of_exactly_forty_characters__", "DINT", instance_id=next(ids))
+    p.tag("big_sint", "SINT", (1700 if reduced else 9000,), instance_id=next(ids))  # three and more fragments at both sizes
     if not reduced:
-        p.tag("big_sint", "SINT", (5000,), instance_id=next(ids))
         p.tag("big_lint", "LINT", (700,), instance_id=next(ids))
     return p
 
@@ -61,6 +61,7 @@ def p2_structs(reduced=False):
     p.tag("padded1", padded, instance_id=next(ids))
     p.tag("padded_ary", padded, (3,), instance_id=next(ids))
     p.tag("arrs1", arrs, instance_id=next(ids))
+    p.tag("arrs_ary", arrs, (3,), instance_id=next(ids))  # BOOL-array member behind an indexed element
     p.tag("inner1", inner, instance_id=next(ids))
     p.tag("mid1", mid, instance_id=next(ids))
     p.tag("outer1", outer, instance_id=next(ids))
